@@ -160,6 +160,21 @@ theorem count_le_one {hs : List Hdr} (wf : HdrsWf hs) (k : Bytes) :
   | none => simp
   | some h => simp
 
+/-- the Spec's digit-by-digit port rule and the model of the code's pattern + `int()` read the same numerals -/
+theorem rfcPort_eq (p : Bytes) (acc : Nat) :
+    rfcPort p acc = if p.all isDigit then some (p.foldl (fun v c => v * 10 + digitVal c) acc) else none := by
+  induction p generalizing acc with
+  | nil => simp [rfcPort]
+  | cons c r ih =>
+    unfold rfcPort
+    by_cases hc : (48 ≤ c && c ≤ 57) = true
+    · have hd : isDigit c = true := hc
+      rw [if_pos hc, ih]
+      simp [hd, digitVal]
+    · have hd : isDigit c = false := by simpa [isDigit] using hc
+      rw [if_neg hc]
+      simp [hd]
+
 theorem stageHost_ok {cfg : SrvCfg} {hs : List Hdr} (wf : HdrsWf hs) :
     stageHost cfg hs = .ok () ↔ count hs b!"host" = 1 ∧ hostOk cfg (value hs b!"host") = true := by
   rw [count_eq_one wf]
@@ -178,15 +193,22 @@ theorem stageHost_ok {cfg : SrvCfg} {hs : List Hdr} (wf : HdrsWf hs) :
         | some hp =>
           obtain ⟨hh, p⟩ := hp
           simp only
-          cases hpi : pyInt (strip p) with
-          | none => simp [bad]
-          | some port =>
-            simp only
-            by_cases h0 : cfg.externalPort = 0
-            · simp [h0]
-            · by_cases h1 : port = (cfg.externalPort : Int)
-              · simp [h0, h1]
-              · simp [h0, h1, bad]
+          rw [rfcPort_eq]
+          unfold portNumeral
+          by_cases hd : p.all isDigit = true
+          · simp only [hd, if_true]
+            by_cases he : p = []
+            · simp [he]
+            · by_cases hl : p.length ≤ maxStrDigits
+              · have hl' : p.length ≤ 4300 := hl
+                by_cases h0 : cfg.externalPort = 0
+                · simp [he, hl, hl', h0]
+                · by_cases h1 : p.foldl (fun v c => v * 10 + digitVal c) 0 = cfg.externalPort
+                  · simp [he, hl, hl', h0, h1]
+                  · simp [he, hl, hl', h0, h1, bad]
+              · have hl' : ¬ p.length ≤ 4300 := hl
+                simp [he, hl, hl', bad]
+          · simp [hd, bad]
       · rw [if_neg hcol, if_neg hcol]; simp
 
 theorem stageUpgrade_ok {cfg : SrvCfg} {env : SrvEnv} {hs : List Hdr} (wf : HdrsWf hs) :
